@@ -104,6 +104,7 @@ type Options struct {
 	CaseLimit   map[string]int
 	StubStr     []string
 	StubZero    []string
+	WasmFiles   map[string]string
 }
 
 type worker struct {
@@ -126,6 +127,7 @@ func newWorker(prog *ssa.Program, opts Options, harnessPkgs []string) (*worker, 
 		m.HarnessP[p] = true
 	}
 	m.Trace = opts.Trace
+	m.WasmFiles = opts.WasmFiles
 	for _, name := range opts.StubZero {
 		name := name
 		m.intr[name] = func(m *Machine, fr *frame, a []Value) Value {
@@ -366,6 +368,7 @@ func (w *worker) runPath(ex *Explorer, fn *ssa.Function, prefix []Decision) {
 	w.m.path = p
 	w.m.logging = true
 	w.m.depth = 0
+	w.m.wasmInsts = nil
 	completed := false
 	func() {
 		defer func() {
